@@ -12,7 +12,8 @@ SETR = [
     (r'it->end\(\)', 'range_end(&S[it])', 0),
     (r'r\.end\(\)', 'range_end(&r)', 1),
     (r'it->cond\.wait\(m_lock\);', 'cond_wait(it);', 1),
-    (r'm_index\.emplace_hint\(it, r\)', 'set_emplace_hint(it, &r)', 1),
+    (r'm_index\.empty\(\)', '(M == 0)', 0), (r'm_index\.rbegin\(\)->(offset|length)\b', r'S[M - 1].\1', 0), (r'm_index\.rbegin\(\)->end\(\)', 'range_end(&S[M - 1])', 0),
+    (r'm_index\.emplace_hint\(([^,()]+), r\)', r'set_emplace_hint(\1, &r)', 1),
     (r'std::min\(', 'std_min(', 0),
 ]
 TARGETS = [
